@@ -85,6 +85,7 @@ type Frame struct {
 	contract  *Contract
 	params    []Val // entry values
 	rangeIter map[ssa.Value]*rangeState
+	snaps     map[string]map[string]Term
 }
 
 type rangeState struct {
@@ -126,6 +127,10 @@ func (f *Frame) clone() *Frame {
 	g.unrolled = make(map[int]int, len(f.unrolled))
 	for k, v := range f.unrolled {
 		g.unrolled[k] = v
+	}
+	g.snaps = make(map[string]map[string]Term, len(f.snaps))
+	for k, v := range f.snaps {
+		g.snaps[k] = v
 	}
 	g.rangeIter = make(map[ssa.Value]*rangeState, len(f.rangeIter))
 	for k, v := range f.rangeIter {
